@@ -377,6 +377,9 @@ type history struct {
 	enqueued    int64
 	computeRuns int64
 	hookEvents  int64
+	// live SELECTs during which (between the hooks around the snapshot) some
+	// commit became visible
+	commitInWindow int64
 
 	queries []*liveQuery
 	byID    map[int]*liveQuery
@@ -642,7 +645,16 @@ func (h *history) apply(ctx context.Context, op writeOp) {
 	}
 }
 
-func runHistory(run *vlib.Run, i int) {
+// fixedPlan replaces the random parts of a history (pinned reproducers).
+type fixedPlan struct {
+	name    string
+	queries []*liveQuery
+	ops     []writeOp
+	faultAt map[int]string
+	class   string // expected classifier of the stale outcome
+}
+
+func runHistory(run *vlib.Run, i int, fixed *fixedPlan) {
 	fmt.Println("CASE history", i)
 	r := run.Rand("history", i)
 	h := &history{run: run, idx: i, r: r, logger: &quietLogger{}, tableIDs: map[string]uint64{}, announced: map[string]uint64{}, staleMap: map[string]bool{},
@@ -699,6 +711,10 @@ func runHistory(run *vlib.Run, i int) {
 	}
 	faulty := r.Intn(5) < 2
 	schemaChange := ""
+	if fixed != nil {
+		nWriters, plans, totalOps, faulty = 1, [][]writeOp{fixed.ops}, len(fixed.ops), false
+		h.faultAt = fixed.faultAt
+	}
 	if faulty {
 		for k := 0; k < 1+r.Intn(2); k++ {
 			// bias towards late events, which nothing later repairs
@@ -709,7 +725,7 @@ func runHistory(run *vlib.Run, i int) {
 			h.faultAt[ord] = []string{"colcount", "badkind", "oddrows"}[r.Intn(3)]
 		}
 	}
-	if r.Intn(4) == 0 {
+	if fixed == nil && r.Intn(4) == 0 {
 		// a schema change in the middle of some writer's plan
 		w := r.Intn(nWriters)
 		at := r.Intn(len(plans[w]) + 1)
@@ -745,6 +761,15 @@ func runHistory(run *vlib.Run, i int) {
 		AfterSnapshot: func(st *fakesql.Stmt) {
 			atomic.AddInt64(&h.hookEvents, 1)
 			h.perturb()
+			if id, ok := st.Tag.(int); ok {
+				if q := h.byID[id]; q != nil {
+					q.mu.Lock()
+					if atomic.LoadInt64(&h.commits) != q.snapSeen {
+						atomic.AddInt64(&h.commitInWindow, 1)
+					}
+					q.mu.Unlock()
+				}
+			}
 		},
 		OnCommit: h.onCommit,
 	})
@@ -754,6 +779,14 @@ func runHistory(run *vlib.Run, i int) {
 	var rerunners []*reactive.Rerunner
 	var perRerunner [][]*liveQuery
 	qid := 0
+	if fixed != nil {
+		nRerunners = 0
+		perRerunner = [][]*liveQuery{fixed.queries}
+		for _, q := range fixed.queries {
+			h.queries = append(h.queries, q)
+			h.byID[q.id] = q
+		}
+	}
 	for k := 0; k < nRerunners; k++ {
 		var qs []*liveQuery
 		seen := map[string]bool{}
@@ -772,6 +805,7 @@ func runHistory(run *vlib.Run, i int) {
 		}
 		perRerunner = append(perRerunner, qs)
 	}
+	nRerunners = len(perRerunner)
 	spawn := make([]bool, nRerunners)
 	for k := range spawn {
 		spawn[k] = r.Intn(2) == 0
@@ -793,6 +827,21 @@ func runHistory(run *vlib.Run, i int) {
 			return nil, nil
 		}, time.Millisecond, spawn[k])
 		rerunners = append(rerunners, rr)
+	}
+
+	if fixed != nil {
+		// pinned reproducers write only after every query ran once
+		vlib.WaitCond(func() bool {
+			for _, q := range h.queries {
+				q.mu.Lock()
+				n := q.runs
+				q.mu.Unlock()
+				if n == 0 {
+					return false
+				}
+			}
+			return true
+		}, h.activity, 5*time.Second, 10*time.Second)
 	}
 
 	// writers
@@ -867,6 +916,8 @@ func runHistory(run *vlib.Run, i int) {
 	run.Count("commits", int(atomic.LoadInt64(&h.commits)))
 	run.Count("compute_runs", int(atomic.LoadInt64(&h.computeRuns)))
 	run.Count("snapshot_hook_visits", int(atomic.LoadInt64(&h.hookEvents)))
+	run.Count("live_selects_overlapping_a_commit", int(atomic.LoadInt64(&h.commitInWindow)))
+	run.Count("reruns_after_last_delivery", int(rerunsAfter))
 	run.Count("undecodable_events_injected", len(faults))
 	run.Count("decode_failures_logged_by_binlog", len(decodeErrors))
 	run.Count("protocol:"+proto, 1)
@@ -942,6 +993,11 @@ func runHistory(run *vlib.Run, i int) {
 				}
 			}
 			run.Count("stale:"+orUnclassified(cls), 1)
+			if fixed != nil {
+				w := witness(q, "pinned reproducer "+fixed.name+": live query is stale at quiescence")
+				run.Violation(-1, cls, w)
+				continue
+			}
 			run.Violation(i, cls, witness(q, "live query is stale at quiescence: it does not hold the rows the database returns for its filter"))
 		}
 	}
@@ -953,6 +1009,24 @@ func runHistory(run *vlib.Run, i int) {
 			q.mu.Unlock()
 		}
 		run.Sample(map[string]interface{}{"history": i, "queries": qs, "events": eventLog, "outcome": outcome.String()})
+	}
+}
+
+// pinned runs the fixed reproducer of the recorded finding: one live query,
+// one committed insert that makes a row match it, delivered as an event the
+// binlog cannot decode (one column short).
+func pinned(run *vlib.Run) {
+	for k, kind := range []string{"colcount", "badkind", "oddrows"} {
+		op := writeOp{kind: "InsertRow", table: "tinies", rows: []interface{}{&Tiny{K: "pinned", Cnt: 3}}}
+		if kind == "oddrows" {
+			op = writeOp{kind: "UpdateRow", table: "tinies", rows: []interface{}{&Tiny{K: "k0", Cnt: 77, Data: []byte("pinned")}}}
+		}
+		q := &liveQuery{id: 1, table: "tinies", fd: filterDesc{filter: sqlgen.Filter{"k": "pinned"}, reps: map[string]string{"k": "own"}}}
+		if kind == "oddrows" {
+			q.fd = filterDesc{filter: sqlgen.Filter{"cnt": uint16(77)}, reps: map[string]string{"cnt": "own"}}
+		}
+		pre := writeOp{kind: "UpsertRow", table: "tinies", rows: []interface{}{&Tiny{K: "k0", Cnt: 1}}}
+		runHistory(run, 1000000+k, &fixedPlan{name: kind, queries: []*liveQuery{q}, ops: []writeOp{pre, op}, faultAt: map[int]string{1: kind}})
 	}
 }
 
@@ -980,7 +1054,8 @@ func TestCheck(t *testing.T) {
 	y.Install()
 	defer vlib.Uninstall()
 	run.Each(run.N(600, 60000), 8, func(i int) { testerCase(run, i) })
-	run.Each(run.N(80, 3000), 4, func(i int) { runHistory(run, i) })
+	pinned(run)
+	run.Each(run.N(240, 12000), 4, func(i int) { runHistory(run, i, nil) })
 	agg := vlib.NewHitAgg()
 	agg.Add(y)
 	agg.Report(run)
